@@ -12,3 +12,5 @@ import Cutadapt.Properties.C15
 #print axioms Cutadapt.C15.partition_of_read
 #print axioms Cutadapt.C15.demux_is_partition_of_plain_output
 #print axioms Cutadapt.C15.cli_demux_partition
+#print axioms Cutadapt.C15.generated_demux_files_and_routing
+#print axioms Cutadapt.C15.generated_comb_files_and_routing
